@@ -230,6 +230,7 @@ pub fn apply(w: &mut RouterWorld, cfg: &Cfg, a: &Act) {
         }
         Act::Bad { c, kind } => super::hostile::bad(w, cfg, *c as usize, *kind),
         Act::Batch { c, kind } => super::hostile::batch(w, cfg, *c as usize, *kind),
+        Act::Pair { c, a, b } => super::hostile::pair(w, cfg, *c as usize, *a, *b),
         Act::Raw { id, kind } => super::hostile::raw(w, cfg, *id as usize, *kind),
         Act::Stall { c } => {
             if let Some(l) = w.clients[*c as usize].link.as_mut() {
@@ -577,6 +578,17 @@ fn enabled_c06(w: &RouterWorld, cfg: &Cfg, v: &mut Vec<(Act, u8)>) {
         if !w.manual {
             for kind in 0..super::hostile::BATCH_KINDS {
                 v.push((Act::Batch { c, kind }, 0));
+            }
+            // every two-packet batch over {publish QoS 0/1/2, PINGREQ, SUBSCRIBE, UNSUBSCRIBE}
+            // in which a reply is owed (c1: a requester that nothing else wakes up)
+            if c == 1 || cfg.variant == 0 {
+                for a in 0..super::hostile::PAIR_KINDS {
+                    for b in 0..super::hostile::PAIR_KINDS {
+                        if (a, b) != (0, 0) {
+                            v.push((Act::Pair { c, a, b }, 1));
+                        }
+                    }
+                }
             }
         }
     }
